@@ -220,6 +220,10 @@ func (v *Val) build() interface{} {
 		switch v.GoT {
 		case "St2":
 			return St2{A: v.Elems[0].Build(), b: v.Elems[1].Build()}
+		case "St4":
+			return St4{L: v.Elems[0].Build().(UStrSafeValue), secret: v.Elems[1].S}
+		case "St5":
+			return St5{first: v.Elems[0].S, L: v.Elems[1].Build().(UStrSafeValue), S: SvStr(v.Elems[2].S), tail: v.Elems[3].S}
 		case "St3":
 			var e error
 			if x := v.Elems[3].Build(); x != nil {
@@ -417,6 +421,12 @@ func (a *Act) DSL() string {
 		return sx(a.K, hxs(a.S))
 	case "panic":
 		return sx("panic", a.Args[0].DSL())
+	case "panicrt":
+		// the payload is a runtime.Error: for the model, an error value whose Error() returns the message
+		msg := rtPanicMsg(a.N)
+		pv := sx("usr", sx("t", hxs("runtime.boundsError"), "0", "0"), sx("ifs", "0", "0", "1", "0", "0", "0"), "0",
+			sx("st", sx("t", hxs("runtime.boundsError"), "0", "0")), sx(sx("ret", hxs(msg))))
+		return sx("panic", pv)
 	case "si":
 		return sx("si", u64(uint64(a.N)))
 	case "su":
